@@ -18,3 +18,18 @@ chk('C07', 'exploration',
     'Reference functions in mc/refmodels/arith.py are trusted; widths above the bound (quick 3, thorough 6-8 bits) are not covered.',
     'bounded exhaustive input/configuration enumeration against an integer reference',
     'DESIGN.md 4/C07')
+chk('C08', 'exploration',
+    'Complete truth tables: every gate / bit-manipulation / selector / comparator block x every arity, width, constant, minterm subset and priority direction in the bound x all input vectors, compared with reference truth tables written from the docstrings; outputs are compared only where the documentation defines them (one-hot preconditions etc.), skipped vectors counted.',
+    'Reference tables in mc/refmodels/logic.py are trusted; arities/widths above the bound are not covered; behaviour outside documented preconditions is not judged.',
+    'bounded exhaustive input/configuration enumeration against reference truth tables',
+    'DESIGN.md 4/C08')
+chk('C10', 'model_checking',
+    'Explicit-state BFS of gated designs (driver on the block, its parent, its grandparent, nested drivers; enable from an input, from a register inside the gated domain, from another domain; 1-3 domains) with all (enable,data) vectors; every transition is compared on all wires and leaf attributes with the statement-derived expectation (hold if the enable was 0 going into the edge, else the step of an identically built ungated twin), under every permutation of the driver visit order; getObjectClockDriver checked against nearest-ancestor.',
+    'The ungated twin defines the ungated step (block step functions themselves are checked in C09); block set, widths and hierarchy depth are bounded.',
+    'explicit-state model checking against a twin-derived reference with schedule (driver order) enumeration',
+    'DESIGN.md 4/C10')
+chk('C11', 'model_checking',
+    'BFS over all construction-operation sequences up to the depth bound (wire/Buf/Constant/child/wrapper creation, rename, reparent, reparentAndRename) deduplicated on a reference netlist state; every transition is replayed on fresh real py4hw objects and must raise exactly when the statement requires, leaving the earlier driver/child/wire in place, with the resulting structure equal to the model; plus checkIntegrity acceptance over a 102-block catalogue and every single-fault variant (each input undriven, each driver removed, each duplicated driver).',
+    'Reference netlist model (mc/refmodels/netlist.py) trusted; sequences bounded by depth and live wires; catalogue at widths 2-3.',
+    'explicit-state search over operation sequences with replay on the implementation; exhaustive single-fault enumeration',
+    'DESIGN.md 4/C11')
